@@ -141,3 +141,81 @@ pub fn augment(line: &str, rest: &str) -> String {
     let r = std::panic::catch_unwind(|| oracle_tokens(&c));
     match r { Ok(t) => format!("{} |{}", line, t), Err(_) => format!("{} | ORACLE-PANIC", line) }
 }
+
+// ---------------------------------------------------------------------------------------
+// DLV: the same inputs delivered in different ways (integer / packed-byte fill, with / without
+// length hint, single- / multi-threaded with W workers from the configuration or from the
+// FLACENC_WORKERS override).  Case: DLV <id> <mode> <cfg> <rate> <ch> <bps> <bs> <samples>
+// mode = (i|b)(0|1)(s|m<W>|e<W>)
+
+use flacenc::error::SourceError;
+use flacenc::source::{Fill, Source};
+
+pub struct VarSource {
+    pub samples: Vec<i32>, pub ch: usize, pub bps: usize, pub rate: usize,
+    pub pos: usize, pub bytes_mode: bool, pub hint: bool,
+    pub fail_at: Option<usize>, pub reads: usize,
+}
+impl Source for VarSource {
+    fn channels(&self) -> usize { self.ch }
+    fn bits_per_sample(&self) -> usize { self.bps }
+    fn sample_rate(&self) -> usize { self.rate }
+    fn read_samples<F: Fill>(&mut self, block_size: usize, dest: &mut F) -> Result<usize, SourceError> {
+        let k = self.reads; self.reads += 1;
+        if Some(k) == self.fail_at { return Err(SourceError::from_unknown()); }
+        let begin = (self.pos * self.ch).min(self.samples.len());
+        let end = ((self.pos + block_size) * self.ch).min(self.samples.len());
+        let src = &self.samples[begin..end];
+        if self.bytes_mode {
+            let nb = (self.bps + 7) / 8;
+            let mut bytes = Vec::with_capacity(src.len() * nb);
+            for v in src { bytes.extend_from_slice(&v.to_le_bytes()[0..nb]); }
+            dest.fill_le_bytes(&bytes, nb)?;
+        } else {
+            dest.fill_interleaved(src)?;
+        }
+        let n = (end - begin) / self.ch;
+        self.pos += n;
+        Ok(n)
+    }
+    fn len_hint(&self) -> Option<usize> { if self.hint { Some(self.samples.len() / self.ch) } else { None } }
+}
+
+pub fn gen_dlv(seed: u64, n: usize, out: &mut String) {
+    let mut r = Rng::new(seed ^ 0xD17);
+    for i in 0..n {
+        let mut c = sig::gen_valid_cfg(&mut r);
+        let (rate, ch, bps, bs, s) = gen_input(&mut r, true);
+        c.bs = bs;
+        let fill = if r.chance(1, 2) { "i" } else { "b" };
+        let hint = r.below(2);
+        let th = match r.below(6) { 0 | 1 => "s".to_string(), 2 => "m1".into(), 3 => format!("m{}", 2 + r.below(6)), 4 => "m16".into(), _ => format!("e{}", 1 + r.below(5)) };
+        writeln!(out, "DLV d{} {}{}{} {} {} {} {} {} {}", i, fill, hint, th, c.encode(), rate, ch, bps, bs, sig::fmt_samples(&s)).unwrap();
+    }
+}
+
+static ENV_LOCK: std::sync::Mutex<()> = std::sync::Mutex::new(());
+
+pub fn run_dlv(id: &str, rest: &str) -> String {
+    let (mode, rest2) = rest.split_once(' ').unwrap();
+    let mut c = parse(rest2);
+    let mb = mode.as_bytes();
+    let bytes_mode = mb[0] == b'b'; let hint = mb[1] == b'1';
+    let th = &mode[2..];
+    let _g = ENV_LOCK.lock().unwrap_or_else(|e| e.into_inner());
+    std::env::remove_var("FLACENC_WORKERS");
+    if th.starts_with('m') { c.cfg.mt = true; c.cfg.workers = Some(th[1..].parse().unwrap()); }
+    else if th.starts_with('e') { c.cfg.mt = true; c.cfg.workers = None; std::env::set_var("FLACENC_WORKERS", &th[1..]); }
+    else { c.cfg.mt = false; }
+    let cfg = match c.cfg.to_encoder().into_verified() { Ok(v) => v, Err(_) => return format!("{} err-config", id) };
+    let src = VarSource { samples: c.samples.clone(), ch: c.ch, bps: c.bps, rate: c.rate, pos: 0, bytes_mode, hint, fail_at: None, reads: 0 };
+    let r = flacenc::encode_with_fixed_block_size(&cfg, src, c.bs);
+    std::env::remove_var("FLACENC_WORKERS");
+    match r {
+        Ok(s) => {
+            let v = if s.verify().is_ok() { "v" } else { "NV" };
+            format!("{} ok {} {} cb={} {}", id, stream_summary(&s), v, s.count_bits(), hex(&stream_bytes(&s)))
+        }
+        Err(e) => format!("{} {}", id, err_kind(&e)),
+    }
+}
